@@ -68,17 +68,29 @@ const LOG_TARGET: &str = "litep2p::ipfs::kademlia";
 /// Parallelism factor, `α`.
 const PARALLELISM_FACTOR: usize = 3;
 
+#[cfg(not(feature = "verif"))]
 mod bucket;
+#[cfg(feature = "verif")]
+pub mod bucket;
 mod config;
 mod executor;
 mod handle;
+#[cfg(not(feature = "verif"))]
 mod message;
+#[cfg(feature = "verif")]
+pub mod message;
 #[cfg(not(feature = "verif"))]
 mod query;
 #[cfg(feature = "verif")]
 pub mod query;
+#[cfg(not(feature = "verif"))]
 mod record;
+#[cfg(feature = "verif")]
+pub mod record;
+#[cfg(not(feature = "verif"))]
 mod routing_table;
+#[cfg(feature = "verif")]
+pub mod routing_table;
 #[cfg(not(feature = "verif"))]
 mod store;
 #[cfg(feature = "verif")]
